@@ -102,7 +102,7 @@ pub fn weights(p: Prop) -> [u8; NOPS] {
         Prop::C02 => [10, 5, 5, 1, 1, 1, 0, 0, 1, 6, 4, 3, 1, 6, 1, 8, 4, 4, 4, 1, 0, 0, 0, 0, 0, 3],
         Prop::C03 => [14, 4, 4, 0, 0, 0, 0, 0, 0, 5, 2, 2, 0, 1, 0, 0, 2, 0, 0, 0, 0, 12, 0, 0, 2, 3],
         Prop::C04 => [10, 4, 4, 1, 1, 1, 1, 1, 1, 5, 3, 5, 3, 4, 1, 4, 6, 6, 3, 2, 0, 0, 0, 2, 0, 4],
-        Prop::C05 => [10, 5, 5, 1, 2, 0, 0, 2, 2, 6, 4, 4, 1, 2, 3, 1, 8, 2, 3, 3, 0, 0, 0, 0, 1, 0],
+        Prop::C05 => [10, 5, 5, 1, 2, 0, 0, 2, 2, 6, 4, 4, 1, 2, 3, 1, 8, 2, 3, 3, 0, 0, 0, 0, 1, 5],
         Prop::C06 => [10, 4, 4, 3, 3, 3, 2, 1, 1, 5, 3, 3, 1, 3, 6, 3, 6, 3, 0, 3, 0, 0, 4, 3, 1, 3],
         Prop::C09 => [12, 3, 3, 1, 1, 0, 0, 0, 0, 9, 4, 3, 0, 1, 16, 0, 2, 1, 0, 0, 0, 0, 0, 0, 0, 0],
         Prop::C10 => [14, 3, 3, 1, 0, 0, 0, 0, 0, 7, 3, 2, 0, 9, 1, 9, 1, 2, 0, 0, 0, 0, 0, 0, 0, 0],
@@ -305,7 +305,12 @@ impl<'c, KD: Kind, const N: usize> MapEng<'c, KD, N> {
         }
         let (p_well, p_ledger, p_canary) = (P_WELL.inter(elig), P_LEDGER.inter(elig), P_CANARY.inter(elig));
         let p_all = p_well.union(p_ledger).union(state0);
-        let p_leak = PS::of(Prop::C02).and(Prop::C17).and(Prop::C03).and(Prop::C18).and(Prop::C15).inter(elig);
+        let mut p_leak = PS::of(Prop::C02).and(Prop::C17).and(Prop::C03).and(Prop::C18).and(Prop::C15).inter(elig);
+        if self.cx.cur_op == "entry" {
+            // "the same results and effects as the direct map operations": a direct remove / insert
+            // destroys what it takes out, so a key or value lost by an entry method is C11's too
+            p_leak = p_leak.and(Prop::C11);
+        }
         let mut stored: Vec<u32> = Vec::new();
         let mut malformed = false;
         for w in 0..2 {
